@@ -70,8 +70,15 @@ pub const R_ES: usize = 13;
 
 #[derive(Clone, Debug, PartialEq, Eq, Serialize, Deserialize)]
 pub enum Event {
-    /// one print!/println! invocation
-    Rec { origin: Origin, line: u32, text: String },
+    /// one print!/println! invocation (err = false), or one eprint!/eprintln! (err = true: it went
+    /// to stderr and is not part of `raw_out`)
+    Rec {
+        origin: Origin,
+        line: u32,
+        text: String,
+        #[serde(default)]
+        err: bool,
+    },
     /// raw write on descriptor 1: asked, accepted (None = EINTR)
     RawW { asked: usize, accepted: Option<usize> },
     Flush,
@@ -109,11 +116,22 @@ impl History {
         fnv1a(&s) ^ fnv1a(&self.raw_out).rotate_left(17)
     }
 
-    /// concatenation of all logical records
+    /// concatenation of all logical records written to stdout
     pub fn records_text(&self) -> String {
         let mut s = String::new();
         for e in &self.events {
-            if let Event::Rec { text, .. } = e {
+            if let Event::Rec { text, err: false, .. } = e {
+                s.push_str(text);
+            }
+        }
+        s
+    }
+
+    /// concatenation of everything written to stderr
+    pub fn stderr_text(&self) -> String {
+        let mut s = String::new();
+        for e in &self.events {
+            if let Event::Rec { text, err: true, .. } = e {
                 s.push_str(text);
             }
         }
@@ -183,8 +201,8 @@ impl History {
         };
         for e in &self.events {
             match e {
-                Event::Rec { origin, .. } => {
-                    mix(b"R");
+                Event::Rec { origin, err, .. } => {
+                    mix(if *err { b"E" } else { b"R" });
                     mix(&[*origin as u8]);
                 }
                 Event::RawW { accepted, .. } => {
